@@ -61,7 +61,7 @@ var (
 
 // vfTamper applies one blind modification to a genuine response.  resp is
 // response | seed frame; the response proper ends at len(resp)-45.
-func vfTamper(rt *rapid.T, resp []byte, other []byte) ([]byte, string) {
+func vfTamper(rt *rapid.T, resp []byte, other []byte, id refobfs4.Identity) ([]byte, string) {
 	l := len(resp) - refobfs4.SeedFrameLen
 	out := append([]byte(nil), resp...)
 	fixed := func(i int) int { // i in 0..95 -> offset of the i-th byte of Y'|AUTH|M_S|MAC_S
@@ -70,7 +70,14 @@ func vfTamper(rt *rapid.T, resp []byte, other []byte) ([]byte, string) {
 		}
 		return l - 32 + (i - 64)
 	}
-	switch k := rapid.IntRange(0, 9).Draw(rt, "tamperKind"); {
+	switch k := rapid.IntRange(0, 11).Draw(rt, "tamperKind"); {
+	case k >= 10:
+		// informed middlebox: knows the bridge line, so it can repair mark and MAC
+		bit := rapid.IntRange(0, 511).Draw(rt, "informedBit")
+		body := append([]byte(nil), resp[:l-32]...)
+		body[bit/8] ^= 1 << uint(bit%8)
+		fixed := refobfs4.ReMAC(id, body, vfHourNow())
+		return append(fixed, resp[l:]...), fmt.Sprintf("flip bit %d of Y'|AUTH and recompute M_S/MAC_S from the public bridge line", bit)
 	case k < 5:
 		bit := rapid.IntRange(0, 767).Draw(rt, "fieldBit")
 		out[fixed(bit/8)] ^= 1 << uint(bit%8)
@@ -323,7 +330,7 @@ func vfC02Case(rt *rapid.T, c *ev.Collector) {
 		if bytes.Equal(resp[:32], other[:32]) {
 			rt.Fatalf("VIOL[c02-ephemeral-key-reused]: two server connections sent the same ephemeral key representative %x", resp[:32])
 		}
-		mod, what := vfTamper(rt, resp, other)
+		mod, what := vfTamper(rt, resp, other, refobfs4.Identity{Pub: br.ID.Pub, NodeID: br.ID.NodeID})
 		desc = "tamper: " + what
 		// the server also sends data right away: none of it may surface
 		if r, _, _ := p.Sv.Write(vfCounterStream(1, 0, 300)); r.Failed() {
@@ -347,7 +354,7 @@ func vfC02Case(rt *rapid.T, c *ev.Collector) {
 func TestVerifC02Scenarios(t *testing.T) {
 	vfSetup(t)
 	c := ev.For("C02")
-	c.Rule("scenarios: generated identity, node ID, seed, bridge-line form and chunk plans; scenario in {genuine (1-3 sequential connections, echo both ways, all ephemeral representatives distinct), one bit of the client's node ID / public key flipped (real server), impostor = reference server that knows the public bridge line only (AUTH from its own key, random AUTH, AUTH of another handshake, genuine AUTH with another Y', low-order Y'), tamper = blind modification of a genuine response in flight (one bit of Y'|AUTH|M_S|MAC_S, a padding bit, insert / delete one byte, truncate, substitute another connection's response) with server payload queued behind it}; oracle: genuine => Dial/WrapConn succeed and data flows; otherwise, after the exchange ends by EOF or the fired client deadline, Dial has returned an error and zero application bytes surfaced; non-trivial = any non-genuine scenario or a genuine one delivered in >= 3 segments; fingerprint = scenario + parameters")
+	c.Rule("scenarios: generated identity, node ID, seed, bridge-line form and chunk plans; scenario in {genuine (1-3 sequential connections, echo both ways, all ephemeral representatives distinct), one bit of the client's node ID / public key flipped (real server), impostor = reference server that knows the public bridge line only (AUTH from its own key, random AUTH, AUTH of another handshake, genuine AUTH with another Y', low-order Y'), tamper = modification of a genuine response in flight (blind: one bit of Y'|AUTH|M_S|MAC_S, a padding bit, insert / delete one byte, truncate, substitute another connection's response; informed: one bit of Y'|AUTH with mark and MAC recomputed from the public bridge line) with server payload queued behind it}; oracle: genuine => Dial/WrapConn succeed and data flows; otherwise, after the exchange ends by EOF or the fired client deadline, Dial has returned an error and zero application bytes surfaced; non-trivial = any non-genuine scenario or a genuine one delivered in >= 3 segments; fingerprint = scenario + parameters")
 	c.Assume("cryptographic strength (HMAC, X25519, SHA-256) is assumed; what is tested is that every check is wired in and bound to the right inputs")
 	for _, s := range []string{"genuine", "wrong-nodeid-bit", "wrong-pubkey-bit", "impostor", "tamper"} {
 		c.Floor("scenario-"+s, 0.08)
